@@ -1037,3 +1037,62 @@ def mapped_closure_of(fl, term, depth=8):
             else:
                 return None
     return None
+
+
+def predicate_true_paths(fl, body):
+    """For a bool-returning body (a filter closure): the ways it can return true, each as a frozenset of canonical
+    literals (rel, polarity, frozenset(operand shapes)).  `a == b` / `!(a != b)` / `a.eq(b)` are ("eq", True, {a, b});
+    the literal that IS the returned value on a path counts with polarity True.  Returns None if some true path is
+    not a conjunction of equality / membership literals."""
+    import panic
+    from flow import fmt_desc
+    from props.c01 import controlling_atoms
+
+    def lit(te, v):
+        te = panic.norm(te)
+        neg = False
+        while isinstance(te, tuple) and te[0] == "unop" and te[1] == "Not":
+            neg = not neg
+            te = te[2]
+        if not isinstance(te, tuple):
+            return None
+        if te[0] == "call" and te[1].split("::")[-1] in ("eq", "ne", "contains", "contains_key") and len(te[2]) >= 2:
+            rel = te[1].split("::")[-1]
+            ops = frozenset(fmt_desc(panic.shape(panic.norm(x))) for x in te[2][:2])
+        elif te[0] == "binop" and te[1] in ("Eq", "Ne"):
+            rel = te[1].lower()
+            ops = frozenset(fmt_desc(panic.shape(panic.norm(x))) for x in te[2:4])
+        else:
+            return None
+        pol = bool(v) != neg
+        if rel == "ne":
+            rel, pol = "eq", not pol
+        return (rel, pol, ops)
+
+    out = []
+    for (bb, d) in body.assigns_to(0):
+        rv = getattr(d, "rv", None)
+        conds = set()
+        bad = False
+        for (te, v, a) in controlling_atoms(fl, bb):
+            if not isinstance(v, bool):
+                continue
+            l_ = lit(te, v)
+            if l_ is None:
+                bad = True
+            else:
+                conds.add(l_)
+        if rv is not None and rv.k == "use" and rv.ops and rv.ops[0].is_const():
+            if rv.ops[0].const_int() == 0:
+                continue  # returns false here
+        else:
+            dd = panic.norm(fl.describe_def(d, depth=8))
+            l_ = lit(dd, True)
+            if l_ is None:
+                bad = True
+            else:
+                conds.add(l_)
+        if bad:
+            return None
+        out.append(frozenset(conds))
+    return out
